@@ -86,11 +86,45 @@ theorem own_vote_is_checked (s : State) (b : Header) (tree1 : Tree) (target : Ck
     (h : ownVote s b tree1 target ≠ (b.sup, s.posted)) :
     ∃ me src, s.cfg.me = some me ∧ me < s.cfg.nVal ∧ lastJustifiedAncestor tree1 b.id = some src ∧
       ({ s with tree := tree1 } : State).verifyVerification tree1 me src.hash src.height b.id b.height true = true ∧
-      ownVote s b tree1 target = (addSupLink b.sup src.hash src.height { slot := me, valid := true },
+      ownVote s b tree1 target = (addSupLinkH b.sup src.hash src.height { slot := me, valid := true },
         s.posted ++ [(me, src.hash, b.id)]) := by
   rcases ownVote_cases s b tree1 target with h' | h'
   · exact absurd h' h
   · exact h'
+
+/-- **The node's own vote is recorded under its true source (what fix 03420039 buys, finding F36).**
+    Whenever the node casts its own vote, the sup list that goes into the stored header (and through
+    `applySupLinks` into the checkpoint) contains an entry with exactly the source hash AND the true
+    source height of the vote that holds the node's slot — whatever entries the delivered copy `b.sup`
+    already carries, in particular one naming the same source hash with another declared height. -/
+theorem own_vote_recorded_under_true_source (s : State) (b : Header) (tree1 : Tree) (target : Ckpt)
+    (h : ownVote s b tree1 target ≠ (b.sup, s.posted)) :
+    ∃ me src, s.cfg.me = some me ∧ lastJustifiedAncestor tree1 b.id = some src ∧
+      ∃ l ∈ (ownVote s b tree1 target).1, l.src = src.hash ∧ l.srcHeight = src.height ∧ hasSlot l me = true := by
+  obtain ⟨me, src, h1, _, h3, _, h5⟩ := own_vote_is_checked s b tree1 target h
+  obtain ⟨l, hl, q1, q2, q3⟩ := addSupLinkH_has b.sup src.hash src.height { slot := me, valid := true }
+  refine ⟨me, src, h1, h3, l, by rw [h5]; exact hl, q1, q2, ?_⟩
+  exact hasSlot_iff.mpr ⟨_, q3, rfl⟩
+
+/-- the sup list `applyBlock` returns for a block whose checkpoint is complete is the one `ownVote` built -/
+theorem applyBlock_returns_ownVote_sup (s : State) (b : Header) (tree0 : Tree) (tn : Tree)
+    (h1 : s.tree.find (byHash b.id) = none) (h2 : s.ensureNode s.fuel s.tree b.parent = some tree0)
+    (h3 : (applyTree1 s b tree0).find (byHash b.id) = some tn) (h4 : (tn.ckpt.status == .growing) = false) :
+    (s.applyBlock b).2.2 = (ownVote s b (applyTree1 s b tree0) tn.ckpt).1 := by
+  rw [applyBlock_eq]
+  simp only [h1, h2]
+  unfold applyRest
+  simp only [h3, h4, Bool.false_eq_true, if_false]
+  split <;> rfl
+
+/-- counter-witness (the code before the fix): with the hash-only merge of `Checkpoint.AddVerification`
+    used at the header level, a delivered entry naming the same source hash with a wrong declared height
+    swallows the own slot — no entry with the true source height holds it, and `applySupLinks` then
+    discards the whole entry -/
+example : addSupLink [{ src := 7, srcHeight := 99, sigs := [] }] 7 4 { slot := 0, valid := true } =
+    [{ src := 7, srcHeight := 99, sigs := [{ slot := 0, valid := true }] }] := by decide
+example : addSupLinkH [{ src := 7, srcHeight := 99, sigs := [] }] 7 4 { slot := 0, valid := true } =
+    [{ src := 7, srcHeight := 99, sigs := [] }, { src := 7, srcHeight := 4, sigs := [{ slot := 0, valid := true }] }] := by decide
 
 /-! ### the full property is refuted without restart (finding F35) -/
 
